@@ -128,6 +128,8 @@ Section Dist.
     generalize Rc_neq0; intros HR.
     eapply Ev_mono; [|apply (E2_ev_pos _ _ D_conv)]; [intros; cbv beta in *; lra|nra].
   Qed.
+  Lemma Df_ev_pos : Ev (fun e => 0 < Df e).
+  Proof. generalize Rc_neq0; intros HR. apply (E2_ev_pos _ _ D_conv). nra. Qed.
   Lemma Af_ev_neq : Ev (fun e => Af e <> 0).
   Proof. apply (E2_ev_neq _ _ A_conv). exact Hk. Qed.
 
